@@ -14,6 +14,7 @@ import (
 	"hash/fnv"
 	"reflect"
 	"runtime"
+	"runtime/debug"
 	"strconv"
 	"sync"
 	"testing/synctest"
@@ -95,6 +96,9 @@ type Sched struct {
 	rootKids  int
 	stateHash uint64   // order-independent hash of all finished events with their clocks
 	keys      []uint64 // state key before each recorded thread choice point (parallel to trace)
+
+	panics     []string // panics of scheduled threads (recovered so that they are attributed to a schedule)
+	panicsRead bool     // the body asked for them (Panics); otherwise the explorer reports them itself
 }
 
 // Choice is one element of a schedule prefix.
@@ -197,6 +201,16 @@ func (s *Sched) spawn(name string, daemon bool, fn func()) *Thread {
 		threads.Store(id, t)
 		defer threads.Delete(id)
 		defer func() {
+			// A panic of a scheduled thread (harness thread, instrumented `go`
+			// statement or timer callback) would kill the whole process and lose
+			// the schedule: record it instead and let the thread end. Deferred
+			// calls of the panicking code (unlocks) have already run.
+			if p := recover(); p != nil {
+				msg := fmt.Sprintf("T%d:%s: %v\n%s", t.ID, t.Name, p, trimStack(debug.Stack()))
+				s.mu.Lock()
+				s.panics = append(s.panics, msg)
+				s.mu.Unlock()
+			}
 			s.mu.Lock()
 			s.endEvent(t)
 			t.done = true
@@ -484,6 +498,10 @@ func AfterFunc(d time.Duration, label string, fn func()) *time.Timer {
 		// is parked at its start point, then run the callback when resumed.
 		th := s.spawn("timer:"+label, true, fn)
 		_ = th
+		// The new thread is parked at its start point: tell a scheduler that is
+		// letting time pass (advanceTime) that something became runnable, else
+		// time would run on to the next timer or the TimeStep horizon.
+		s.poke()
 	})
 }
 
@@ -829,6 +847,43 @@ func (s *Sched) Events() []string {
 	s.mu.Lock()
 	defer s.mu.Unlock()
 	return append([]string(nil), s.events...)
+}
+
+// Panics returns the panics of scheduled threads recovered so far in this
+// execution ("T<id>:<name>: <value>" followed by the top of the stack). A body
+// that calls it takes over reporting them; otherwise the explorer reports the
+// first one under the key "panic" like a panic of the body itself.
+func (s *Sched) Panics() []string {
+	s.mu.Lock()
+	defer s.mu.Unlock()
+	s.panicsRead = true
+	return append([]string(nil), s.panics...)
+}
+
+func trimStack(b []byte) string {
+	lines := bytes.Split(b, []byte("\n"))
+	// drop "goroutine N [running]:" and the frames of debug.Stack / this deferred function / panic
+	var out [][]byte
+	skip := true
+	for _, l := range lines {
+		if skip {
+			if bytes.HasPrefix(l, []byte("panic(")) {
+				skip = false
+			}
+			continue
+		}
+		out = append(out, l)
+		if len(out) >= 13 {
+			break
+		}
+	}
+	if len(out) == 0 {
+		if len(lines) > 14 {
+			lines = lines[:14]
+		}
+		out = lines
+	}
+	return string(bytes.Join(out, []byte("\n")))
 }
 
 // Quiesce waits until every goroutine in the bubble is durably blocked.
